@@ -25,6 +25,8 @@ func plans(quick bool) []netsim.CrashPlan {
 		{Name: "flush-4v-victim1-valchange", N: 4, Victim: 1, Flush: true, Heights: 5, ValChange: true},
 		{Name: "flush-4v-victim2-manyrounds", N: 4, Victim: 2, Flush: true, Heights: 3, ManyRounds: true},
 		{Name: "flush-4v-victim0-zerocommitwait-late", N: 4, Victim: 0, Flush: true, Heights: 3, ZeroCommitWait: true, Late: true},
+		{Name: "flush-4v-victim1-viaswitch-late", N: 4, Victim: 1, Flush: true, Heights: 3, ViaSwitch: true, Late: true},
+		{Name: "flush-4v-victim3-noise-late", N: 4, Victim: 3, Flush: true, Heights: 3, Noise: true, Late: true},
 		{Name: "flush-1v-torn-second-txs", N: 1, Victim: 0, Flush: true, Heights: 3, Torn: true, Second: true, WithTxs: true},
 	}
 	if quick {
